@@ -185,7 +185,7 @@ fn run_to_path(kind: CoordKind, style: PathStyle, pts: &[(i32, i32)], flags: &[u
 }
 
 fn part_to_path(cfg: &Config, s: &mut Session, rng: &mut Rng) {
-    let n = if cfg.thorough() { 400_000 } else { 40_000 };
+    let n = if cfg.thorough() { 1_000_000 } else { 120_000 };
     let bvals = boundary_i32();
     for it in 0..n {
         let kind = *rng.pick(&[CoordKind::F26, CoordKind::Fx, CoordKind::I32, CoordKind::F32]);
@@ -407,7 +407,7 @@ fn expected_size(c: &OutlineCounts, emb: bool) -> usize {
 }
 
 fn part_carve(cfg: &Config, s: &mut Session, rng: &mut Rng) {
-    let n = if cfg.thorough() { 300_000 } else { 30_000 };
+    let n = if cfg.thorough() { 600_000 } else { 80_000 };
     for _ in 0..n {
         let small = |rng: &mut Rng| -> usize {
             match rng.below(8) {
@@ -683,21 +683,40 @@ fn part_fonts(cfg: &Config, s: &mut Session, rng: &mut Rng) {
     let fonts = load_fonts();
     let refs: Vec<FontRef> = fonts.iter().map(|f| FontRef::new(&f.data).unwrap()).collect();
     let collections: Vec<OutlineGlyphCollection> = refs.iter().map(|f| f.outline_glyphs()).collect();
-    let cap = if cfg.thorough() { 400 } else { 40 };
-    let configs_per_font = if cfg.thorough() { 10 } else { 3 };
+    let configs_per_font = if cfg.thorough() { 16 } else { 5 };
     for (fi, font) in refs.iter().enumerate() {
-        let name = &fonts[fi].name;
-        let outlines = &collections[fi];
         let n_glyphs = font.maxp().map(|m| m.num_glyphs() as u32).unwrap_or(0);
         let axis_count = font.axes().len();
         let is_glyf = font.glyf().is_ok() && font.loca(None).is_ok();
+        font_battery(cfg, s, rng, &fonts[fi].name, &collections[fi], n_glyphs, axis_count, is_glyf, &collections, configs_per_font, false);
+    }
+}
+
+/// the whole oracle battery on one font; `pool` = fonts a reused instance may have seen before
+#[allow(clippy::too_many_arguments)]
+fn font_battery(
+    cfg: &Config,
+    s: &mut Session,
+    rng: &mut Rng,
+    name: &str,
+    outlines: &OutlineGlyphCollection,
+    n_glyphs: u32,
+    axis_count: usize,
+    is_glyf: bool,
+    pool: &[OutlineGlyphCollection],
+    configs_per_font: usize,
+    synth: bool,
+) {
+    let cap = if cfg.thorough() { 600 } else { 90 };
+    let tag = if synth { "synth" } else { "fonts" };
+    {
         if outlines.get(GlyphId::new(0)).is_none() && n_glyphs > 0 && outlines.iter().next().is_none() {
-            s.count("fonts:no-outlines");
-            continue;
+            s.count(&format!("{tag}:no-outlines"));
+            return;
         }
-        s.count(if is_glyf { "fonts:glyf" } else { "fonts:cff" });
+        s.count(&format!("{tag}:{}", if is_glyf { "glyf" } else { "cff" }));
         if axis_count > 0 {
-            s.count("fonts:variable");
+            s.count(&format!("{tag}:variable"));
         }
         for ci in 0..configs_per_font {
             let gids = glyph_sample(rng, n_glyphs, cap);
@@ -770,14 +789,14 @@ fn part_fonts(cfg: &Config, s: &mut Session, rng: &mut Rng) {
             }
 
             // ---------------- hinted -----------------
-            let (opts, on) = if ci == 0 { (options_from(0, 1), "e0t1".to_string()) } else { hint_options(rng) };
+            let (opts, on) = if ci == 0 { (options_from(0, 1), "e0t1".to_string()) } else if synth { let t = rng.below(6); (options_from(0, t), format!("e0t{t}")) } else { hint_options(rng) };
             let fresh = catch(|| HintingInstance::new(outlines, size, loc, opts.clone()));
             let fresh = match fresh {
                 Ok(Ok(i)) => i,
                 Ok(Err(e)) => {
                     s.count("hint:new-err");
                     // a reused instance must fail the same way
-                    let mut dirty = dirty_instance(rng, &collections);
+                    let mut dirty = dirty_instance(rng, pool, synth);
                     if let Some(d) = dirty.as_mut() {
                         let r = catch(|| d.reconfigure(outlines, size, loc, opts.clone()));
                         let same = matches!(&r, Ok(Err(e2)) if format!("{e2:?}") == format!("{e:?}"));
@@ -801,7 +820,7 @@ fn part_fonts(cfg: &Config, s: &mut Session, rng: &mut Rng) {
             // reused instance: configured for other fonts / sizes / locations / modes before
             let mut reused_ok = None;
             for _ in 0..(if cfg.thorough() { 3 } else { 1 }) {
-                if let Some(mut d) = dirty_instance(rng, &collections) {
+                if let Some(mut d) = dirty_instance(rng, pool, synth) {
                     let r = catch(|| d.reconfigure(outlines, size, loc, opts.clone()));
                     match r {
                         Ok(Ok(())) => {
@@ -912,8 +931,479 @@ fn part_fonts(cfg: &Config, s: &mut Session, rng: &mut Rng) {
     }
 }
 
+// ---------------------------------------------------------------------------------------------
+// part D: synthetic fonts (hand-encoded glyf/loca, optional empty gvar, fpgm/prep/cvt)
+
+#[derive(Clone)]
+enum SGlyph {
+    Empty,
+    /// contours given as point counts; instructions
+    Simple { contours: Vec<usize>, instr: Vec<u8> },
+    /// component glyph ids; `Some(instr)` sets WE_HAVE_INSTRUCTIONS
+    Composite { comps: Vec<u16>, instr: Option<Vec<u8>> },
+}
+
+struct SFont {
+    glyphs: Vec<SGlyph>,
+    gvar_axes: Option<u16>,
+    fpgm: Vec<u8>,
+    prep: Vec<u8>,
+    cvt: Vec<i16>,
+    max_storage: u16,
+    max_twilight: u16,
+    max_funcs: u16,
+    max_idefs: u16,
+    max_stack: u16,
+}
+
+fn be16(v: &mut Vec<u8>, x: i32) {
+    v.extend_from_slice(&(x as u16).to_be_bytes());
+}
+
+fn encode_glyph(gid: usize, g: &SGlyph) -> Vec<u8> {
+    let mut v = vec![];
+    match g {
+        SGlyph::Empty => {}
+        SGlyph::Simple { contours, instr } => {
+            be16(&mut v, contours.len() as i32);
+            for b in [0, 0, 1000, 1000] {
+                be16(&mut v, b);
+            }
+            let mut end = 0usize;
+            for c in contours {
+                end += c;
+                be16(&mut v, end as i32 - 1);
+            }
+            be16(&mut v, instr.len() as i32);
+            v.extend_from_slice(instr);
+            let np = end;
+            for i in 0..np {
+                // alternate on/off curve a little, depending on the glyph
+                v.push(if (i + gid) % 3 == 2 { 0x00 } else { 0x01 });
+            }
+            for i in 0..np {
+                be16(&mut v, if i == 0 { 100 } else { [120, -40, 65, 30][(i + gid) % 4] });
+            }
+            for i in 0..np {
+                be16(&mut v, if i == 0 { 50 } else { [35, 110, -20, -75][(i + 2 * gid) % 4] });
+            }
+        }
+        SGlyph::Composite { comps, instr } => {
+            be16(&mut v, -1);
+            for b in [0, 0, 1000, 1000] {
+                be16(&mut v, b);
+            }
+            for (i, c) in comps.iter().enumerate() {
+                let last = i + 1 == comps.len();
+                let mut flags = 0x0001 | 0x0002; // words, xy values
+                if !last {
+                    flags |= 0x0020;
+                } else if instr.is_some() {
+                    flags |= 0x0100;
+                }
+                be16(&mut v, flags);
+                be16(&mut v, *c as i32);
+                be16(&mut v, 30 * i as i32);
+                be16(&mut v, -20 * i as i32);
+            }
+            if let Some(ins) = instr {
+                be16(&mut v, ins.len() as i32);
+                v.extend_from_slice(ins);
+            }
+        }
+    }
+    if v.len() % 2 == 1 {
+        v.push(0);
+    }
+    v
+}
+
+fn build_sfont(f: &SFont) -> Vec<u8> {
+    use read_fonts::types::Tag;
+    use write_fonts::tables::{head::Head, hhea::Hhea, hmtx::Hmtx, hmtx::LongMetric, maxp::Maxp};
+    let n = f.glyphs.len();
+    let mut glyf = vec![];
+    let mut loca = vec![];
+    for (gid, g) in f.glyphs.iter().enumerate() {
+        loca.extend_from_slice(&(glyf.len() as u32).to_be_bytes());
+        glyf.extend_from_slice(&encode_glyph(gid, g));
+    }
+    loca.extend_from_slice(&(glyf.len() as u32).to_be_bytes());
+    if glyf.is_empty() {
+        glyf.push(0);
+    }
+    let head = Head { units_per_em: 1000, index_to_loc_format: 1, ..Default::default() };
+    let maxp = Maxp {
+        num_glyphs: n as u16,
+        max_points: Some(64),
+        max_contours: Some(8),
+        max_composite_points: Some(256),
+        max_composite_contours: Some(32),
+        max_zones: Some(2),
+        max_twilight_points: Some(f.max_twilight),
+        max_storage: Some(f.max_storage),
+        max_function_defs: Some(f.max_funcs),
+        max_instruction_defs: Some(f.max_idefs),
+        max_stack_elements: Some(f.max_stack),
+        max_size_of_instructions: Some(256),
+        max_component_elements: Some(8),
+        max_component_depth: Some(8),
+    };
+    let hhea = Hhea { number_of_h_metrics: n as u16, ..Default::default() };
+    let hmtx = Hmtx::new((0..n).map(|i| LongMetric::new(500 + 10 * i as u16, 7)).collect(), vec![]);
+    let mut fb = write_fonts::FontBuilder::new();
+    fb.add_table(&head).unwrap();
+    fb.add_table(&maxp).unwrap();
+    fb.add_table(&hhea).unwrap();
+    fb.add_table(&hmtx).unwrap();
+    fb.add_raw(Tag::new(b"glyf"), glyf);
+    fb.add_raw(Tag::new(b"loca"), loca);
+    if !f.fpgm.is_empty() {
+        fb.add_raw(Tag::new(b"fpgm"), f.fpgm.clone());
+    }
+    if !f.prep.is_empty() {
+        fb.add_raw(Tag::new(b"prep"), f.prep.clone());
+    }
+    if !f.cvt.is_empty() {
+        fb.add_raw(Tag::new(b"cvt "), f.cvt.iter().flat_map(|v| v.to_be_bytes()).collect::<Vec<u8>>());
+    }
+    if let Some(axes) = f.gvar_axes {
+        // a gvar table without any variation data
+        let mut g = vec![];
+        be16(&mut g, 1);
+        be16(&mut g, 0);
+        be16(&mut g, axes as i32);
+        be16(&mut g, 0);
+        let data_off = 20 + 2 * (n as u32 + 1);
+        g.extend_from_slice(&data_off.to_be_bytes());
+        be16(&mut g, n as i32);
+        be16(&mut g, 0);
+        g.extend_from_slice(&data_off.to_be_bytes());
+        for _ in 0..=n {
+            be16(&mut g, 0);
+        }
+        fb.add_raw(Tag::new(b"gvar"), g);
+    }
+    fb.build()
+}
+
+/// expand the glyph reference graph below `gid` into the prefix encoding of the `counts` request
+/// (`None` if the expansion is too large).  Below recursion depth 34 nothing is looked at any more.
+fn expand_tree(f: &SFont, gid: usize, depth: usize, out: &mut Vec<i64>, budget: &mut i64) -> Option<()> {
+    *budget -= 1;
+    if *budget < 0 {
+        return None;
+    }
+    if depth > 34 {
+        out.push(2);
+        return Some(());
+    }
+    match f.glyphs.get(gid) {
+        None | Some(SGlyph::Empty) => out.push(2),
+        Some(SGlyph::Simple { contours, instr }) => {
+            out.extend_from_slice(&[0, contours.iter().sum::<usize>() as i64, contours.len() as i64, (!instr.is_empty()) as i64]);
+        }
+        Some(SGlyph::Composite { comps, instr }) => {
+            out.extend_from_slice(&[1, comps.len() as i64, instr.as_ref().map_or(false, |i| !i.is_empty()) as i64]);
+            for c in comps {
+                expand_tree(f, *c as usize, depth + 1, out, budget)?;
+            }
+        }
+    }
+    Some(())
+}
+
+fn part_counts(cfg: &Config, s: &mut Session, rng: &mut Rng) {
+    let n_fonts = if cfg.thorough() { 4000 } else { 400 };
+    for fi in 0..n_fonts {
+        let n = 2 + rng.below(10) as usize;
+        let mut glyphs: Vec<SGlyph> = vec![SGlyph::Empty];
+        let cyclic = rng.chance(1, 6);
+        for gid in 1..n {
+            let g = match rng.below(10) {
+                0 => SGlyph::Empty,
+                1..=4 => {
+                    let nc = rng.below(4) as usize;
+                    SGlyph::Simple {
+                        contours: (0..nc).map(|_| 1 + rng.below(6) as usize).collect(),
+                        instr: if rng.chance(1, 3) { vec![0x4f] /* DEBUG: harmless no-op */ } else { vec![] },
+                    }
+                }
+                _ => {
+                    let k = 1 + rng.below(4) as usize;
+                    let comps: Vec<u16> = (0..k)
+                        .map(|_| {
+                            if cyclic && rng.chance(1, 3) {
+                                rng.below(n as u64) as u16 // may point at itself or forward
+                            } else {
+                                rng.below(gid as u64) as u16 // earlier glyph: acyclic
+                            }
+                        })
+                        .collect();
+                    SGlyph::Composite { comps, instr: if rng.chance(1, 3) { Some(vec![0x4f]) } else if rng.chance(1, 8) { Some(vec![]) } else { None } }
+                }
+            };
+            glyphs.push(g);
+        }
+        let f = SFont {
+            glyphs,
+            gvar_axes: if rng.chance(1, 2) { Some(1 + rng.below(3) as u16) } else { None },
+            fpgm: vec![],
+            prep: vec![],
+            cvt: (0..rng.below(5)).map(|i| i as i16 * 10).collect(),
+            max_storage: rng.below(6) as u16,
+            max_twilight: rng.below(6) as u16,
+            max_funcs: rng.below(4) as u16,
+            max_idefs: rng.below(3) as u16,
+            max_stack: 8 + rng.below(40) as u16,
+        };
+        let data = build_sfont(&f);
+        let Ok(font) = FontRef::new(&data) else {
+            s.count("counts:font-unreadable");
+            continue;
+        };
+        let outlines = font.outline_glyphs();
+        for gid in 0..n {
+            let mut toks: Vec<i64> = vec![];
+            let mut budget = 4000i64;
+            if expand_tree(&f, gid, 0, &mut toks, &mut budget).is_none() {
+                s.count("counts:too-large");
+                continue;
+            }
+            let got = match catch(|| outlines.get(GlyphId::new(gid as u32))) {
+                Ok(Some(g)) => match verif_hooks::outline_counts(&g) {
+                    Some(c) => counts_args(&c),
+                    None => "not-glyf".into(),
+                },
+                Ok(None) => "err:RecursionLimitExceeded".into(),
+                Err(_) => "trap".into(),
+            };
+            s.count(if got.starts_with("err") { "counts:recursion" } else { "counts:ok" });
+            let req = format!(
+                "counts {} {} {} {} {} {}",
+                f.max_stack,
+                f.cvt.len(),
+                f.max_storage,
+                f.max_twilight,
+                f.gvar_axes.is_some() as u8,
+                join(&toks)
+            );
+            s.case("counts", req, got);
+        }
+        // the draw battery on a few of these fonts (composites with/without instructions, empty gvar)
+        if fi % 10 == 0 {
+            let pool = [outlines.clone()];
+            font_battery(cfg, s, rng, &format!("synth-tree-{fi}"), &outlines, n as u32, f.gvar_axes.unwrap_or(0) as usize, true, &pool, 2, true);
+        }
+    }
+}
+
+// ---- fonts whose hinting programs make every piece of instance state visible in the outline ----
+
+mod op {
+    pub const SVTCA_Y: u8 = 0x00;
+    pub const SZP2: u8 = 0x15;
+    pub const SZPS: u8 = 0x16;
+    pub const CALL: u8 = 0x2B;
+    pub const FDEF: u8 = 0x2C;
+    pub const ENDF: u8 = 0x2D;
+    pub const WS: u8 = 0x42;
+    pub const RS: u8 = 0x43;
+    pub const WCVTP: u8 = 0x44;
+    pub const RCVT: u8 = 0x45;
+    pub const GC0: u8 = 0x46;
+    pub const SCFS: u8 = 0x48;
+    pub const MPPEM: u8 = 0x4B;
+    pub const LT: u8 = 0x50;
+    pub const IF: u8 = 0x58;
+    pub const EIF: u8 = 0x59;
+    pub const IDEF: u8 = 0x89;
+    pub const ADD: u8 = 0x60;
+    /// an opcode without built-in meaning, used for instruction definitions
+    pub const CUSTOM: u8 = 0xA5;
+    pub const CUSTOM2: u8 = 0xA6;
+}
+
+fn pushw(v: &mut Vec<u8>, xs: &[i32]) {
+    assert!(!xs.is_empty() && xs.len() <= 8);
+    v.push(0xB8 + (xs.len() as u8 - 1));
+    for x in xs {
+        v.extend_from_slice(&(*x as i16).to_be_bytes());
+    }
+}
+
+/// a font of the family: which slots its font/prep programs write is decided by `sig`
+fn state_font(rng: &mut Rng, sig: u64) -> SFont {
+    use op::*;
+    let bit = |k: u64| (sig >> k) & 1 == 1;
+    let n_slots = 4usize;
+    let mut fpgm = vec![];
+    // function 0 always exists (pushes a font specific constant); functions 1..3 depend on sig
+    for fnum in 0..4i32 {
+        if fnum == 0 || bit(fnum as u64) {
+            pushw(&mut fpgm, &[fnum]);
+            fpgm.push(FDEF);
+            pushw(&mut fpgm, &[64 * (1 + fnum) + (sig % 50) as i32]);
+            fpgm.push(ENDF);
+        }
+    }
+    // instruction definitions
+    for (k, opc) in [(4u64, CUSTOM), (5u64, CUSTOM2)] {
+        if bit(k) {
+            pushw(&mut fpgm, &[opc as i32]);
+            fpgm.push(IDEF);
+            pushw(&mut fpgm, &[500 + 64 * k as i32 + (sig % 31) as i32]);
+            fpgm.push(ENDF);
+        }
+    }
+    let mut prep = vec![];
+    // storage writes
+    for i in 0..n_slots as i32 {
+        if bit(6 + i as u64) {
+            pushw(&mut prep, &[i, 64 * (3 + i) + (sig % 17) as i32]);
+            prep.push(WS);
+        }
+    }
+    // cvt writes (26.6 pixels)
+    for j in 0..n_slots as i32 {
+        if bit(10 + j as u64) {
+            pushw(&mut prep, &[j, 64 * (5 + j) + (sig % 13) as i32]);
+            prep.push(WCVTP);
+        }
+    }
+    // twilight points
+    if sig >> 14 & 0xF != 0 {
+        pushw(&mut prep, &[0]);
+        prep.push(SZPS);
+        prep.push(SVTCA_Y);
+        for t in 0..n_slots as i32 {
+            if bit(14 + t as u64) {
+                pushw(&mut prep, &[t, 64 * (7 + t) + (sig % 11) as i32]);
+                prep.push(SCFS);
+            }
+        }
+        pushw(&mut prep, &[1]);
+        prep.push(SZPS);
+    }
+    // size dependent state: below 20 ppem one more storage cell is written
+    if bit(18) {
+        prep.push(MPPEM);
+        pushw(&mut prep, &[20]);
+        prep.push(LT);
+        prep.push(IF);
+        pushw(&mut prep, &[0, 999]);
+        prep.push(WS);
+        prep.push(EIF);
+    }
+    // glyph 1: reads storage, cvt, twilight into point coordinates
+    let mut g1 = vec![SVTCA_Y];
+    for i in 0..n_slots as i32 {
+        pushw(&mut g1, &[i, i]); // point i, storage index i
+        g1.push(RS);
+        g1.push(SCFS);
+    }
+    for j in 0..n_slots as i32 {
+        pushw(&mut g1, &[4 + j, j]);
+        g1.push(RCVT);
+        g1.push(SCFS);
+    }
+    for t in 0..n_slots as i32 {
+        pushw(&mut g1, &[8 + t, 0]);
+        g1.push(SZP2);
+        pushw(&mut g1, &[t]);
+        g1.push(GC0);
+        pushw(&mut g1, &[1]);
+        g1.push(SZP2);
+        g1.push(SCFS);
+    }
+    // glyph 2..5: call function k (undefined in some fonts: hinting error)
+    let call_glyph = |k: i32| {
+        let mut g = vec![SVTCA_Y];
+        pushw(&mut g, &[0, k]);
+        g.push(CALL);
+        g.push(SCFS);
+        g
+    };
+    // glyph 6/7: custom opcodes
+    let idef_glyph = |opc: u8| {
+        let mut g = vec![SVTCA_Y];
+        pushw(&mut g, &[1]);
+        g.push(opc);
+        g.push(SCFS);
+        g
+    };
+    // glyph 8: writes storage/cvt/twilight itself, then reads back (glyph-time writes must stay private)
+    let mut g8 = vec![SVTCA_Y];
+    pushw(&mut g8, &[1, 777]);
+    g8.push(WS);
+    pushw(&mut g8, &[1, 888]);
+    g8.push(WCVTP);
+    pushw(&mut g8, &[0]);
+    g8.push(SZPS);
+    pushw(&mut g8, &[1, 555]);
+    g8.push(SCFS);
+    pushw(&mut g8, &[1]);
+    g8.push(SZPS);
+    pushw(&mut g8, &[2, 1]);
+    g8.push(RS);
+    pushw(&mut g8, &[1]);
+    g8.push(RCVT);
+    g8.push(ADD);
+    g8.push(SCFS);
+    let simple = |instr: Vec<u8>| SGlyph::Simple { contours: vec![7, 6], instr };
+    let glyphs = vec![
+        SGlyph::Empty,
+        simple(g1),
+        simple(call_glyph(0)),
+        simple(call_glyph(1)),
+        simple(call_glyph(2)),
+        simple(call_glyph(3)),
+        simple(idef_glyph(CUSTOM)),
+        simple(idef_glyph(CUSTOM2)),
+        simple(g8),
+        SGlyph::Composite { comps: vec![1, 8], instr: Some(vec![SVTCA_Y]) },
+        simple(vec![]),
+    ];
+    SFont {
+        glyphs,
+        gvar_axes: if bit(19) { Some(2) } else { None },
+        fpgm,
+        prep,
+        cvt: (0..(4 + sig % 3) as i16).map(|i| 100 + 10 * i + (sig % 7) as i16).collect(),
+        max_storage: 4 + (sig % 4) as u16,
+        max_twilight: 4 + (sig / 4 % 4) as u16,
+        max_funcs: 4 + (sig / 16 % 3) as u16,
+        max_idefs: 2 + (sig / 64 % 3) as u16,
+        max_stack: 32 + rng.below(32) as u16,
+    }
+}
+
+fn part_state_fonts(cfg: &Config, s: &mut Session, rng: &mut Rng) {
+    let n_fonts = if cfg.thorough() { 40 } else { 12 };
+    let mut datas: Vec<(u64, Vec<u8>)> = vec![];
+    // the all-writing and the nothing-writing font are always present
+    let mut sigs: Vec<u64> = vec![0xFFFFF, 0, 0x3FFFF & 0x2AAAA, 0x15555];
+    while sigs.len() < n_fonts {
+        sigs.push(rng.next() & 0xFFFFF);
+    }
+    for sig in sigs {
+        let f = state_font(rng, sig);
+        datas.push((sig, build_sfont(&f)));
+    }
+    let refs: Vec<FontRef> = datas.iter().filter_map(|(_, d)| FontRef::new(d).ok()).collect();
+    if refs.len() != datas.len() {
+        s.oracle("synth.fonts_readable", false, || "state fonts".into(), || "FontRef::new failed".into());
+        return;
+    }
+    let pool: Vec<OutlineGlyphCollection> = refs.iter().map(|f| f.outline_glyphs()).collect();
+    for (i, (sig, _)) in datas.iter().enumerate() {
+        let axes = if sig >> 19 & 1 == 1 { 2 } else { 0 };
+        font_battery(cfg, s, rng, &format!("synth-state-{sig:05x}"), &pool[i], 11, axes, true, &pool, if cfg.thorough() { 16 } else { 6 }, true);
+    }
+}
+
 /// an instance that has been through 1–3 other configurations (other fonts, sizes, locations, modes)
-fn dirty_instance(rng: &mut Rng, collections: &[OutlineGlyphCollection]) -> Option<HintingInstance> {
+fn dirty_instance(rng: &mut Rng, collections: &[OutlineGlyphCollection], synth: bool) -> Option<HintingInstance> {
     let mut inst: Option<HintingInstance> = None;
     let steps = 1 + rng.below(3);
     for _ in 0..steps {
@@ -922,7 +1412,7 @@ fn dirty_instance(rng: &mut Rng, collections: &[OutlineGlyphCollection]) -> Opti
         let size = pick_size(rng);
         let n_axes = rng.below(4) as usize;
         let coords = random_coords(rng, n_axes);
-        let (opts, _) = hint_options(rng);
+        let (opts, _) = if synth { (options_from(0, rng.below(6)), String::new()) } else { hint_options(rng) };
         match inst.as_mut() {
             None => {
                 if let Ok(Ok(i)) = catch(|| HintingInstance::new(outlines, size, LocationRef::new(&coords), opts)) {
@@ -956,6 +1446,9 @@ fn run(cfg: &Config, s: &mut Session) {
     part_carve(cfg, s, &mut rng);
     let mut rng = Rng::new(cfg.seed ^ 0xC12);
     part_fonts(cfg, s, &mut rng);
+    let mut rng = Rng::new(cfg.seed ^ 0xD12);
+    part_counts(cfg, s, &mut rng);
+    part_state_fonts(cfg, s, &mut rng);
     let _ = Location::new(0);
 }
 
